@@ -107,6 +107,7 @@ type State struct {
 	inited   map[*ssa.Package]bool
 	locks    map[string]lockState
 	counters map[string]int // WaitGroup counters
+	pools    map[string][]Value // sync.Pool contents (LIFO): Get returns the last Put object if any
 	trace    []nondetRec
 	nchoice  int
 	steps    int
@@ -156,6 +157,12 @@ func (s *State) clone() *State {
 	}
 	for k, v := range s.counters {
 		n.counters[k] = v
+	}
+	if s.pools != nil {
+		n.pools = make(map[string][]Value, len(s.pools))
+		for k, v := range s.pools {
+			n.pools[k] = append([]Value(nil), v...)
+		}
 	}
 	for k, v := range s.reach {
 		n.reach[k] = v
